@@ -43,3 +43,122 @@ package stream
 //@ ensures.metric_members[C16] s.vBucketDiscoveryMetric.TotalMembers == T && s.vBucketDiscoveryMetric.MemberNumber == M
 //@ ensures.metric_range[C16] s.vBucketDiscoveryMetric.VBucketRangeStart == result[0] && s.vBucketDiscoveryMetric.VBucketRangeEnd == result[len(result)-1]
 //@ modifies s.vBucketDiscoveryMetric.TotalMembers, s.vBucketDiscoveryMetric.MemberNumber, s.vBucketDiscoveryMetric.VBucketRangeStart, s.vBucketDiscoveryMetric.VBucketRangeEnd, calls(membership.Membership.GetInfo)
+
+// ---------- delivery path (C01, C03, C05, C14) ----------
+
+//@ func (*stream).waitAndForward$1
+//@ props C01 C05
+//@ requires s != nil && s.vbIDRange != nil && s.offsets != nil && s.dirtyOffsets != nil && s.consumer != nil && offset != nil
+//@ ensures.settle[C01,C05] calls("stream.(*stream).setOffset") == 1 && arg("stream.(*stream).setOffset", 0, s) == s && arg("stream.(*stream).setOffset", 0, vbID) == vbID && arg("stream.(*stream).setOffset", 0, offset) == offset && arg("stream.(*stream).setOffset", 0, dirty) == true
+//@ ensures.flag[C05] s.anyDirtyOffset == true
+//@ modifies content(s.offsets), content(s.dirtyOffsets), s.anyDirtyOffset, calls(models.Consumer.TrackOffset), calls("stream.(*stream).setOffset")
+
+//@ func (*stream).waitAndForward
+//@ props C01 C03 C05 C14
+//@ requires s != nil && s.vbIDRange != nil && s.offsets != nil && s.dirtyOffsets != nil && s.consumer != nil && s.metric != nil && s.checkpoint != nil && offset != nil
+//@ let meta = isMeta(payload)
+//@ let ctx = arg(models.Consumer.ConsumeEvent, 0, ctx)
+//@ ensures.absorb[C14,C01] meta ==> calls(models.Consumer.ConsumeEvent) == 0 && calls("stream.(*stream).setOffset") == 1 && arg("stream.(*stream).setOffset", 0, vbID) == vbID && arg("stream.(*stream).setOffset", 0, offset) == offset && arg("stream.(*stream).setOffset", 0, dirty) == false
+//@ ensures.absorbclean[C14] meta ==> unchanged(s.dirtyOffsets) && s.anyDirtyOffset == old(s.anyDirtyOffset)
+//@ ensures.deliver[C03] !meta ==> calls(models.Consumer.ConsumeEvent) == 1 && arg(models.Consumer.ConsumeEvent, 0, recv) == old(s.consumer) && ctx.Event == payload
+//@ ensures.ack[C01] !meta ==> isclosure(ctx.Ack, "stream.(*stream).waitAndForward$1") && captured(ctx.Ack, "stream.(*stream).waitAndForward$1", "s") == s && captured(ctx.Ack, "stream.(*stream).waitAndForward$1", "vbID") == vbID && captured(ctx.Ack, "stream.(*stream).waitAndForward$1", "offset") == offset
+//@ ensures.commit[C05] !meta ==> isbound(ctx.Commit, "stream.Checkpoint.Save") && boundrecv(ctx.Commit, "stream.Checkpoint.Save") == old(s.checkpoint)
+//@ ensures.nosettle[C01] !meta ==> dcalls("stream.(*stream).setOffset") == 0
+//@ modifies content(s.offsets), content(s.dirtyOffsets), s.anyDirtyOffset, s.metric.DcpLatency, s.metric.ProcessLatency, calls(models.Consumer.TrackOffset), calls(models.Consumer.ConsumeEvent), calls("stream.(*stream).setOffset")
+
+//@ func (*stream).dispatchPersistSeqNo
+//@ props C07
+//@ requires s != nil && persistSeqNo != nil
+//@ ensures.forward[C07] old(s.observers != nil && has(s.observers, persistSeqNo.VbID)) ==> calls(couchbase.Observer.SetPersistSeqNo) == 1 && arg(couchbase.Observer.SetPersistSeqNo, 0, recv) == old(s.observers[persistSeqNo.VbID]) && arg(couchbase.Observer.SetPersistSeqNo, 0, 1) == persistSeqNo.SeqNo
+//@ ensures.none[C07] !old(s.observers != nil && has(s.observers, persistSeqNo.VbID)) ==> calls(couchbase.Observer.SetPersistSeqNo) == 0
+//@ modifies calls(couchbase.Observer.SetPersistSeqNo)
+
+//@ func (*stream).UnmarkDirtyOffsets
+//@ props C05
+//@ requires s != nil
+//@ ensures.cleared[C05] s.anyDirtyOffset == false && fresh(s.dirtyOffsets) && forall k uint16 :: !has(s.dirtyOffsets, k)
+//@ modifies s.anyDirtyOffset, s.dirtyOffsets
+
+//@ func (*stream).GetOffsets
+//@ props C01 C05 C16
+//@ requires s != nil
+//@ ensures.fields result0 == s.offsets && result1 == s.dirtyOffsets && result2 == s.anyDirtyOffset
+//@ modifies nothing
+
+//@ func (*stream).listen
+//@ props C01 C03 C05
+//@ requires s != nil && s.vbIDRange != nil && s.offsets != nil && s.dirtyOffsets != nil && s.consumer != nil && s.metric != nil && s.checkpoint != nil
+//@ let ev = args.Event
+//@ requires typeis(ev, models.InternalDcpMutation) ==> as(ev, models.InternalDcpMutation).Offset != nil && as(ev, models.InternalDcpMutation).DcpMutation != nil
+//@ requires typeis(ev, models.InternalDcpDeletion) ==> as(ev, models.InternalDcpDeletion).Offset != nil && as(ev, models.InternalDcpDeletion).DcpDeletion != nil
+//@ requires typeis(ev, models.InternalDcpExpiration) ==> as(ev, models.InternalDcpExpiration).Offset != nil && as(ev, models.InternalDcpExpiration).DcpExpiration != nil
+//@ requires typeis(ev, models.InternalDcpSeqNoAdvance) ==> as(ev, models.InternalDcpSeqNoAdvance).Offset != nil && as(ev, models.InternalDcpSeqNoAdvance).DcpSeqNoAdvanced != nil
+//@ requires typeis(ev, models.InternalDcpCollectionCreation) ==> as(ev, models.InternalDcpCollectionCreation).Offset != nil && as(ev, models.InternalDcpCollectionCreation).DcpCollectionCreation != nil
+//@ requires typeis(ev, models.InternalDcpCollectionDeletion) ==> as(ev, models.InternalDcpCollectionDeletion).Offset != nil && as(ev, models.InternalDcpCollectionDeletion).DcpCollectionDeletion != nil
+//@ requires typeis(ev, models.InternalDcpCollectionFlush) ==> as(ev, models.InternalDcpCollectionFlush).Offset != nil && as(ev, models.InternalDcpCollectionFlush).DcpCollectionFlush != nil
+//@ requires typeis(ev, models.InternalDcpScopeCreation) ==> as(ev, models.InternalDcpScopeCreation).Offset != nil && as(ev, models.InternalDcpScopeCreation).DcpScopeCreation != nil
+//@ requires typeis(ev, models.InternalDcpScopeDeletion) ==> as(ev, models.InternalDcpScopeDeletion).Offset != nil && as(ev, models.InternalDcpScopeDeletion).DcpScopeDeletion != nil
+//@ requires typeis(ev, models.InternalDcpCollectionModification) ==> as(ev, models.InternalDcpCollectionModification).Offset != nil && as(ev, models.InternalDcpCollectionModification).DcpCollectionModification != nil
+//@ ensures.DcpMutation[C03,C01] typeis(ev, models.InternalDcpMutation) ==> dcalls("stream.(*stream).waitAndForward") == 1 && dcalls("stream.(*stream).setOffset") == 0 && typeis(arg("stream.(*stream).waitAndForward", 0, payload), models.InternalDcpMutation) && as(arg("stream.(*stream).waitAndForward", 0, payload), models.InternalDcpMutation) == as(ev, models.InternalDcpMutation) && arg("stream.(*stream).waitAndForward", 0, offset) == as(ev, models.InternalDcpMutation).Offset && arg("stream.(*stream).waitAndForward", 0, vbID) == as(ev, models.InternalDcpMutation).DcpMutation.VbID && arg("stream.(*stream).waitAndForward", 0, eventTime) == as(ev, models.InternalDcpMutation).EventTime && arg("stream.(*stream).waitAndForward", 0, s) == s
+//@ ensures.DcpDeletion[C03,C01] typeis(ev, models.InternalDcpDeletion) ==> dcalls("stream.(*stream).waitAndForward") == 1 && dcalls("stream.(*stream).setOffset") == 0 && typeis(arg("stream.(*stream).waitAndForward", 0, payload), models.InternalDcpDeletion) && as(arg("stream.(*stream).waitAndForward", 0, payload), models.InternalDcpDeletion) == as(ev, models.InternalDcpDeletion) && arg("stream.(*stream).waitAndForward", 0, offset) == as(ev, models.InternalDcpDeletion).Offset && arg("stream.(*stream).waitAndForward", 0, vbID) == as(ev, models.InternalDcpDeletion).DcpDeletion.VbID && arg("stream.(*stream).waitAndForward", 0, eventTime) == as(ev, models.InternalDcpDeletion).EventTime && arg("stream.(*stream).waitAndForward", 0, s) == s
+//@ ensures.DcpExpiration[C03,C01] typeis(ev, models.InternalDcpExpiration) ==> dcalls("stream.(*stream).waitAndForward") == 1 && dcalls("stream.(*stream).setOffset") == 0 && typeis(arg("stream.(*stream).waitAndForward", 0, payload), models.InternalDcpExpiration) && as(arg("stream.(*stream).waitAndForward", 0, payload), models.InternalDcpExpiration) == as(ev, models.InternalDcpExpiration) && arg("stream.(*stream).waitAndForward", 0, offset) == as(ev, models.InternalDcpExpiration).Offset && arg("stream.(*stream).waitAndForward", 0, vbID) == as(ev, models.InternalDcpExpiration).DcpExpiration.VbID && arg("stream.(*stream).waitAndForward", 0, eventTime) == as(ev, models.InternalDcpExpiration).EventTime && arg("stream.(*stream).waitAndForward", 0, s) == s
+//@ ensures.DcpSeqNoAdvanced[C01,C05] typeis(ev, models.InternalDcpSeqNoAdvance) ==> dcalls("stream.(*stream).waitAndForward") == 0 && dcalls("stream.(*stream).setOffset") == 1 && arg("stream.(*stream).setOffset", 0, s) == s && arg("stream.(*stream).setOffset", 0, vbID) == as(ev, models.InternalDcpSeqNoAdvance).DcpSeqNoAdvanced.VbID && arg("stream.(*stream).setOffset", 0, offset) == as(ev, models.InternalDcpSeqNoAdvance).Offset && arg("stream.(*stream).setOffset", 0, dirty) == true
+//@ ensures.DcpCollectionCreation[C01,C05] typeis(ev, models.InternalDcpCollectionCreation) ==> dcalls("stream.(*stream).waitAndForward") == 0 && dcalls("stream.(*stream).setOffset") == 1 && arg("stream.(*stream).setOffset", 0, s) == s && arg("stream.(*stream).setOffset", 0, vbID) == as(ev, models.InternalDcpCollectionCreation).DcpCollectionCreation.VbID && arg("stream.(*stream).setOffset", 0, offset) == as(ev, models.InternalDcpCollectionCreation).Offset && arg("stream.(*stream).setOffset", 0, dirty) == true
+//@ ensures.DcpCollectionDeletion[C01,C05] typeis(ev, models.InternalDcpCollectionDeletion) ==> dcalls("stream.(*stream).waitAndForward") == 0 && dcalls("stream.(*stream).setOffset") == 1 && arg("stream.(*stream).setOffset", 0, s) == s && arg("stream.(*stream).setOffset", 0, vbID) == as(ev, models.InternalDcpCollectionDeletion).DcpCollectionDeletion.VbID && arg("stream.(*stream).setOffset", 0, offset) == as(ev, models.InternalDcpCollectionDeletion).Offset && arg("stream.(*stream).setOffset", 0, dirty) == true
+//@ ensures.DcpCollectionFlush[C01,C05] typeis(ev, models.InternalDcpCollectionFlush) ==> dcalls("stream.(*stream).waitAndForward") == 0 && dcalls("stream.(*stream).setOffset") == 1 && arg("stream.(*stream).setOffset", 0, s) == s && arg("stream.(*stream).setOffset", 0, vbID) == as(ev, models.InternalDcpCollectionFlush).DcpCollectionFlush.VbID && arg("stream.(*stream).setOffset", 0, offset) == as(ev, models.InternalDcpCollectionFlush).Offset && arg("stream.(*stream).setOffset", 0, dirty) == true
+//@ ensures.DcpScopeCreation[C01,C05] typeis(ev, models.InternalDcpScopeCreation) ==> dcalls("stream.(*stream).waitAndForward") == 0 && dcalls("stream.(*stream).setOffset") == 1 && arg("stream.(*stream).setOffset", 0, s) == s && arg("stream.(*stream).setOffset", 0, vbID) == as(ev, models.InternalDcpScopeCreation).DcpScopeCreation.VbID && arg("stream.(*stream).setOffset", 0, offset) == as(ev, models.InternalDcpScopeCreation).Offset && arg("stream.(*stream).setOffset", 0, dirty) == true
+//@ ensures.DcpScopeDeletion[C01,C05] typeis(ev, models.InternalDcpScopeDeletion) ==> dcalls("stream.(*stream).waitAndForward") == 0 && dcalls("stream.(*stream).setOffset") == 1 && arg("stream.(*stream).setOffset", 0, s) == s && arg("stream.(*stream).setOffset", 0, vbID) == as(ev, models.InternalDcpScopeDeletion).DcpScopeDeletion.VbID && arg("stream.(*stream).setOffset", 0, offset) == as(ev, models.InternalDcpScopeDeletion).Offset && arg("stream.(*stream).setOffset", 0, dirty) == true
+//@ ensures.DcpCollectionModification[C01,C05] typeis(ev, models.InternalDcpCollectionModification) ==> dcalls("stream.(*stream).waitAndForward") == 0 && dcalls("stream.(*stream).setOffset") == 1 && arg("stream.(*stream).setOffset", 0, s) == s && arg("stream.(*stream).setOffset", 0, vbID) == as(ev, models.InternalDcpCollectionModification).DcpCollectionModification.VbID && arg("stream.(*stream).setOffset", 0, offset) == as(ev, models.InternalDcpCollectionModification).Offset && arg("stream.(*stream).setOffset", 0, dirty) == true
+//@ ensures.other[C03] !typeis(ev, models.InternalDcpMutation) && !typeis(ev, models.InternalDcpDeletion) && !typeis(ev, models.InternalDcpExpiration) && !typeis(ev, models.InternalDcpSeqNoAdvance) && !typeis(ev, models.InternalDcpCollectionCreation) && !typeis(ev, models.InternalDcpCollectionDeletion) && !typeis(ev, models.InternalDcpCollectionFlush) && !typeis(ev, models.InternalDcpScopeCreation) && !typeis(ev, models.InternalDcpScopeDeletion) && !typeis(ev, models.InternalDcpCollectionModification) ==> dcalls("stream.(*stream).waitAndForward") == 0 && dcalls("stream.(*stream).setOffset") == 0 && unchanged(s.offsets) && unchanged(s.dirtyOffsets) && s.anyDirtyOffset == old(s.anyDirtyOffset)
+//@ modifies content(s.offsets), content(s.dirtyOffsets), s.anyDirtyOffset, s.metric.DcpLatency, s.metric.ProcessLatency, calls(models.Consumer.TrackOffset), calls(models.Consumer.ConsumeEvent), calls("stream.(*stream).setOffset"), calls("stream.(*stream).waitAndForward")
+
+// ---------- checkpoint (C01, C02, C05, C06) ----------
+
+//@ iface stream.Stream.GetOffsets
+//@ params recv
+//@ requires typeis(recv, "*stream")
+//@ ensures result0 == as(recv, "*stream").offsets && result1 == as(recv, "*stream").dirtyOffsets && result2 == as(recv, "*stream").anyDirtyOffset
+//@ modifies nothing
+
+//@ iface stream.Stream.UnmarkDirtyOffsets
+//@ params recv
+//@ requires typeis(recv, "*stream")
+//@ ensures as(recv, "*stream").anyDirtyOffset == false && fresh(as(recv, "*stream").dirtyOffsets) && forall k uint16 :: !has(as(recv, "*stream").dirtyOffsets, k)
+//@ modifies as(recv, "*stream").anyDirtyOffset, as(recv, "*stream").dirtyOffsets
+
+// Assumed contract of a metadata store: it does not write library state.
+//@ iface metadata.Metadata.Save
+//@ params recv state dirtyOffsets bucketUUID
+//@ modifies nothing
+
+//@ func (*checkpoint).Save
+//@ props C01 C02 C05 C06
+//@ requires s != nil && s.stream != nil && typeis(s.stream, "*stream") && s.saveLock != nil && s.metric != nil && s.metadata != nil
+//@ requires as(s.stream, "*stream").offsets != nil && as(s.stream, "*stream").dirtyOffsets != nil
+//@ let st = as(s.stream, "*stream")
+//@ let offs = old(st.offsets)
+//@ let dirt = old(st.dirtyOffsets)
+//@ let any = old(st.anyDirtyOffset)
+//@ let state = arg(metadata.Metadata.Save, 0, state)
+//@ let dump = arg(metadata.Metadata.Save, 0, dirtyOffsets)
+//@ loop $1
+//@   invariant.shape forall vb uint16 :: visited[vb] ==> has(checkpointDump, vb) && checkpointDump[vb] != nil && checkpointDump[vb].Checkpoint != nil && checkpointDump[vb].Checkpoint.Snapshot != nil
+//@   invariant.uuid forall vb uint16 :: visited[vb] ==> checkpointDump[vb].Checkpoint.VbUUID == offsets[vb].VbUUID
+//@   invariant.seqno forall vb uint16 :: visited[vb] ==> checkpointDump[vb].Checkpoint.SeqNo == offsets[vb].SeqNo
+//@   invariant.snapstart forall vb uint16 :: visited[vb] ==> checkpointDump[vb].Checkpoint.Snapshot.StartSeqNo == offsets[vb].StartSeqNo
+//@   invariant.snapend forall vb uint16 :: visited[vb] ==> checkpointDump[vb].Checkpoint.Snapshot.EndSeqNo == offsets[vb].EndSeqNo
+//@   invariant.dom forall vb uint16 :: has(checkpointDump, vb) ==> visited[vb]
+//@   modifies content(checkpointDump), newobjs(models.CheckpointDocument), newobjs(models.CheckpointDocumentCheckpoint), newobjs(models.CheckpointDocumentSnapshot)
+//@ loop $2
+//@   invariant.copy forall vb uint16 :: visited[vb] ==> has(dirtyOffsetsDump, vb) && dirtyOffsetsDump[vb] == dirtyOffsets[vb]
+//@   invariant.dom forall vb uint16 :: has(dirtyOffsetsDump, vb) ==> visited[vb]
+//@   modifies content(dirtyOffsetsDump)
+//@ ensures.skip[C05] !any ==> calls(metadata.Metadata.Save) == 0 && calls(stream.Stream.UnmarkDirtyOffsets) == 0 && st.dirtyOffsets == dirt && unchanged(st.dirtyOffsets) && st.anyDirtyOffset == any
+//@ ensures.once[C05] any ==> calls(metadata.Metadata.Save) == 1 && arg(metadata.Metadata.Save, 0, recv) == old(s.metadata) && arg(metadata.Metadata.Save, 0, bucketUUID) == s.bucketUUID
+//@ ensures.dumpdom[C01,C02] any ==> forall vb uint16 :: has(state, vb) == old(has(st.offsets, vb))
+//@ ensures.dump[C01,C02,C06] any ==> forall vb uint16 :: has(state, vb) ==> state[vb] != nil && state[vb].Checkpoint != nil && state[vb].Checkpoint.Snapshot != nil && state[vb].Checkpoint.VbUUID == old(st.offsets[vb].VbUUID) && state[vb].Checkpoint.SeqNo == old(st.offsets[vb].SeqNo) && state[vb].Checkpoint.Snapshot.StartSeqNo == old(st.offsets[vb].StartSeqNo) && state[vb].Checkpoint.Snapshot.EndSeqNo == old(st.offsets[vb].EndSeqNo)
+//@ ensures.dirtydump[C05] any ==> forall vb uint16 :: has(dump, vb) == old(has(st.dirtyOffsets, vb)) && (has(dump, vb) ==> dump[vb] == old(st.dirtyOffsets[vb]))
+//@ ensures.ok[C05] any && ret(metadata.Metadata.Save, 0) == nil ==> calls(stream.Stream.UnmarkDirtyOffsets) == 1 && arg(stream.Stream.UnmarkDirtyOffsets, 0, recv) == s.stream
+//@ ensures.fail[C05] any && ret(metadata.Metadata.Save, 0) != nil ==> calls(stream.Stream.UnmarkDirtyOffsets) == 0 && st.dirtyOffsets == dirt && unchanged(st.dirtyOffsets) && st.anyDirtyOffset == any
+//@ ensures.positions[C01] st.offsets == offs && unchanged(st.offsets)
+//@ modifies st.anyDirtyOffset, st.dirtyOffsets, s.metric.OffsetWrite, s.metric.OffsetWriteLatency, calls(metadata.Metadata.Save), calls(stream.Stream.UnmarkDirtyOffsets), calls(stream.Stream.GetOffsets)
